@@ -222,6 +222,7 @@ func Alphabet(dirs []string, optionalDirs []string) []Op {
 			ops = append(ops, Op{Kind: "write", Dir: d, Name: "x.yaml", Content: c})
 		}
 		ops = append(ops, Op{Kind: "write", Dir: d, Name: "n.txt", Content: "A"})
+		ops = append(ops, Op{Kind: "write", Dir: d, Name: "z.yml", Content: "Y"}) // a near-miss of a Spec extension: no Spec file for anybody
 		ops = append(ops, Op{Kind: "tmp-rename", Dir: d, Name: "x.yaml", Content: "B"})
 		ops = append(ops, Op{Kind: "move-in", Dir: d, Name: "x.yaml", Content: "A"})
 		ops = append(ops, Op{Kind: "move-in", Dir: d, Name: "y.json", Content: "Y"})
